@@ -77,6 +77,16 @@ func (p *c02Prov) storage(e ast.Expr, depth int) c02Storage {
 			return c02Shared
 		}
 	case *ast.SelectorExpr:
+		// a field of a struct value held in a local (a result struct, a grouped hand-over): what the field was given
+		if base, f := m.structLocalField(x); base != nil {
+			if inits, ok := m.fieldInits(base, 0, f, map[types.Object]bool{}, 0); ok {
+				v := c02Fresh
+				for _, in := range inits {
+					v = c02Worse(v, p.storage(in, depth+1))
+				}
+				return v
+			}
+		}
 		if f := fieldOf(info, x); f != nil {
 			p.note("`%s` at %s is read from a field, storage that outlives the block", src(m.p.Fset, e), m.p.Rel(e.Pos()))
 			return c02Shared
